@@ -13,7 +13,7 @@ TECHNIQUE = ('bounded exhaustive enumeration of EFLR content models (set x templ
              'object component shapes x record sequences with encrypted records) written by an independent producer and '
              'decoded by the real LogicalIndex; tables compared cell by cell')
 RULE = ('shape D (one attribute deep): set role/name x one template column over role x all 16 subsets of {C,R,U,V} x all 19 '
-        'supported codes x count {0,1,2} x 0-2 objects whose component ranges over {omitted, absent, every subset of '
+        'supported codes x count {0,1,2} (and 127, 128, 130, 300 for 4 codes, in the template and overriding it) x 0-2 objects whose component ranges over {omitted, absent, every subset of '
         'overriding {C,R,U,V}}; shape W (across columns): every 2-3 column template over {ordinary with default, ordinary '
         'without, invariant, invariant with every characteristic} x every legal object shape word over {override, absent, trailing-omitted} x 0-2 objects; '
         'shape F (across records): 1-2 logical files x 0-2 further sets (among them a second ORIGIN and a WELL-REFERENCE set) x an encrypted EFLR / IFLR at every position x '
@@ -343,6 +343,22 @@ def gen_D(tier, code):
                                        {'name': names[1], 'comps': [] if c1 is None else [c1]}])
 
 
+def gen_big_counts(code):
+    """Counts that need a two-byte UVARI (128, 130, 300; 127 is the last one-byte count): in the template, and overriding it in an object,
+    each followed by another column so that a mis-read count shows."""
+    names = [(0, 0, b'OBJ0'), (1, 1, b'OBJ1')]
+    k = 0
+    for cnt in (127, 128, 130, 300):
+        second = {'label': b'NEXT', 'code': 16, 'values': [7]}
+        tcol = {'label': b'BIG', 'code': code, 'count': cnt, 'values': vals(code, cnt)}
+        k += 1
+        yield mkset(k, [tcol, second], [{'name': names[0], 'comps': []}, {'name': names[1], 'comps': [{}, {'values': [9]}]}])
+        small = {'label': b'BIG', 'code': code, 'values': vals(code, 1)}
+        k += 1
+        yield mkset(k, [small, second], [{'name': names[0], 'comps': [{'count': cnt, 'values': vals(code, cnt, 1)}, {'values': [9]}]},
+                                         {'name': names[1], 'comps': [{'count': cnt, 'values': vals(code, cnt, 2)}]}])
+
+
 def gen_W(tier, ncols, vcode):
     cols_alpha = ['Av', 'A', 'I', 'If']      # If: an invariant attribute with every characteristic present (descriptor 0x5F)
     names = [(0, 0, b'OBJ0'), (1, 1, b'OBJ1')]
@@ -485,6 +501,9 @@ def run_shard(shard, tier):
                 res.violate(sig, case, msg)
         return res
     gen = gen_D(tier, shard['code']) if shard['gen'] == 'D' else gen_W(tier, shard['ncols'], shard['vcode'])
+    if shard['gen'] == 'D' and shard['code'] in (16, 19, 2, 23):
+        # (the modulo filter below spreads these over the shards of the code as well)
+        gen = itertools.chain(gen_big_counts(shard['code']), gen)
     for i, s in enumerate(gen):
         if i % shard.get('of', 1) != shard.get('part', 0):
             continue
